@@ -7,15 +7,18 @@ from vf.ob import obligation, shard
 from tartiflette import Resolver
 
 META = {
-    "bounds": "request sequences of length <= 3 over a pool of 9 documents (valid incl. variables nested in object/list literals and multi-operation, invalid, syntactically broken, "
+    "bounds": "request sequences of length <= 3 over a pool of 12 documents (valid incl. fragments on interface / implementer, variables nested in object/list literals and multi-operation, invalid, syntactically broken, "
               "runtime-failing) x str/bytes spelling x per-request int variable (unbounded) x operation name; 4 cache configurations: default lru_cache(512) (real, CrossHair's cache "
               "bypass removed), lru_cache(1), custom dict decorator, cache disabled",
     "outside": "sequences longer than 3; cache decorators other than these four",
-    "explanation": "Position by position the cached engine's response must equal the response of an engine without parsing cache.",
+    "explanation": "Position by position the cached engine's response must equal the response of an engine without parsing cache AND a hand-written answer per pool document (the uncached engine shares the history).",
 }
 SDL = """
 input F { id: Int tag: String = "t" }
-type Query { echo(v: Int): Int item(filter: F): Int ids(list: [Int]): Int a: Int nn: Int! }
+interface Pet { name: String }
+type Dog implements Pet { name: String }
+type Cat implements Pet { name: String }
+type Query { echo(v: Int): Int item(filter: F): Int ids(list: [Int]): Int a: Int nn: Int! pets: [Pet] dog: Dog }
 """
 
 
@@ -30,6 +33,12 @@ async def _res(parent, args, ctx, info):
         return l[1] if len(l) > 1 else None
     if f == "nn":
         return None if (ctx or {}).get("fail") else 1
+    if f == "pets":
+        return [{"_typename": "Dog", "name": "d"}, {"_typename": "Cat", "name": "c"}]
+    if f == "dog":
+        return {"_typename": "Dog", "name": "d"}
+    if f == "name":
+        return parent["name"]
     return 7
 
 
@@ -70,7 +79,49 @@ POOL = [
     "{ a ",
     "{ nn a }",
     "query Q($v: Int = 4) { x: echo(v: $v) item(filter: {id: 3, tag: \"z\"}) }",
+    "{ dog { ...P } pets { name } } fragment P on Pet { name }",          # valid: a fragment on the interface inside an object-typed selection
+    "{ pets { ...C } } fragment C on Cat { name }",                       # valid: a fragment on one implementer inside the interface-typed selection
+    "{ dog { ...C } } fragment C on Cat { name }",                        # invalid (5.5.2.3): Cat can never apply inside Dog
 ]
+I32 = 2 ** 31
+
+
+def oracle(idx, v, opsel):
+    """the response every engine must give, written by hand from the pool: (data or None, has errors)"""
+    provided = "$v" in POOL[idx] and not (idx in (3, 8) and v is None)
+    if idx in (4, 5, 6, 11):
+        return None, True
+    if provided and v is not None and not (-I32 <= v < I32):
+        return None, True                 # variable coercion refuses the request
+    if idx == 0:
+        return {"echo": v, "a": 7}, False
+    if idx == 1:
+        return {"item": v}, False
+    if idx == 2:
+        return {"ids": v}, False
+    if idx == 3:
+        if opsel:
+            return {"x": v if provided else 22, "y": 5}, False
+        return {"a": 7, "echo": v if provided else 11}, False
+    if idx in (4, 5, 6, 11):          # unknown field, unused variable, syntax error, impossible fragment spread
+        return None, True
+    if idx == 7:
+        return (None, True) if opsel else ({"nn": 1, "a": 7}, False)
+    if idx == 8:
+        return {"x": v if provided else 4, "item": 3}, False
+    if idx == 9:
+        return {"dog": {"name": "d"}, "pets": [{"name": "d"}, {"name": "c"}]}, False
+    return {"pets": [{}, {"name": "c"}]}, False
+
+
+def matches(r, exp):
+    data, has_err = exp
+    if not isinstance(r, dict) or bool(r.get("errors")) != has_err:
+        return False
+    got = r.get("data")
+    if data is None or got is None:
+        return data is None and got is None
+    return got == data
 
 
 def reset_caches():
@@ -93,14 +144,14 @@ def send(eng, idx, v, asbytes, opsel):
 
 SH16 = [{"cfg": c, "first": f, "second": g, "b1": b, "o": o} for c in ENGS for f in range(len(POOL)) for g in range(len(POOL)) for b in (1, 0) for o in (1, 0) if c == "default" or (b, o) == (1, 1)]
 Q16 = [i for i, s in enumerate(SH16) if ((s["b1"], s["o"]) == (1, 1) or (s["cfg"], s["first"], s["second"], s["b1"], s["o"]) == ("default", 3, 3, 0, 0)) and (s["cfg"], s["first"], s["second"]) in (("default", 0, 0), ("default", 1, 1), ("default", 2, 2), ("default", 3, 3), ("default", 6, 0), ("default", 4, 1),
-                                                                               ("lru1", 1, 0), ("lru1", 2, 4), ("dict", 2, 2), ("dict", 8, 8), ("none", 1, 1), ("default", 7, 7))]
+                                                                               ("lru1", 1, 0), ("lru1", 2, 4), ("default", 9, 10), ("default", 11, 10), ("none", 9, 10), ("lru1", 11, 9), ("dict", 10, 9), ("dict", 2, 2), ("dict", 8, 8), ("none", 1, 1), ("default", 7, 7))]
 
 
 @obligation(tier="quick", timeout=300, thorough_timeout=900, shards=SH16, quick_shards=Q16,
             samples=[{"i2": 1, "v0": 1, "v1": 2, "b1": True, "o": True}, {"i2": 0, "v0": 2**31, "v1": None, "b1": False, "o": False}],
             symbolic=["v0: int, v1: Optional[int] — the variables of the first two requests (unbounded); the third request reuses v0"],
             selectors=["i2: pool index of the 3rd request", "shard: cache configuration, first and second request, str/bytes spelling of the 2nd request (the 3rd uses the other one), operation name / failure selector"],
-            bounds="sequences of 3 requests (every prefix is checked position by position) over 9 documents",
+            bounds="sequences of 3 requests (every prefix is checked position by position) over 12 documents",
             note="every response of the sequence == the uncached engine's response to the same request; repeating a request gives the same response; failed/invalid requests leave no trace")
 def c16_history(i2: int, v0: int, v1: Optional[int], b1: bool, o: bool) -> bool:
     """
@@ -119,5 +170,8 @@ def c16_history(i2: int, v0: int, v1: Optional[int], b1: bool, o: bool) -> bool:
         ok2, ref = safe(lambda: send(FRESH, idx, vs[k], bs[k], ok_sel))
         observe((idx, vs[k], bs[k]), r, ref)
         if not ok or not ok2 or r != ref:
+            return verdict(False)
+        # the uncached engine itself has seen the earlier requests of the sequence: both are also held against the hand-written answer
+        if not matches(r, oracle(idx, vs[k], ok_sel)):
             return verdict(False)
     return verdict(True)
